@@ -54,12 +54,17 @@ pub enum Case {
 
 /// `close_f32` on values divided by the magnitude class `s` of the case
 fn close_s(x: f32, y: f64, rel: f64, s: f64) -> bool {
+    if y.is_infinite() {
+        // an unbounded score makes the documented combination infinite: exactly that must come back
+        return f64::from(x) == y;
+    }
     x.is_finite() && (f64::from(x) / s - y / s).abs() <= rel * (y / s).abs().max(1.0)
 }
 
+/// Entries equal to `f32::MAX` stand for +infinity (JSON has no infinite numbers); the others are scaled.
 fn scaled(data: &[f32], scale_exp: i8) -> (Vec<f32>, f64) {
     let s = 10f64.powi(i32::from(scale_exp));
-    (data.iter().map(|v| (f64::from(*v) * s) as f32).collect(), s)
+    (data.iter().map(|v| if *v == f32::MAX { f32::INFINITY } else { (f64::from(*v) * s) as f32 }).collect(), s)
 }
 
 thread_local! {
@@ -225,7 +230,7 @@ fn check_sets(table: &[f32], pairs: &[(Vec<u8>, Vec<u8>)], scale: f64, stats: &m
                 ensure!(s.to_bits() == g.to_bits(), format!("group/{name}/hposet-similarity"), "HpoSet::similarity = {s}, GroupSimilarity = {g}");
                 if symmetric {
                     ensure!(
-                        (f64::from(rev) - f64::from(g)).abs() / scale <= 1e-6 * (want / scale).abs().max(1.0),
+                        rev == g || (f64::from(rev) - f64::from(g)).abs() / scale <= 1e-6 * (want / scale).abs().max(1.0),
                         format!("group/{name}/argument-order"),
                         "symmetric term similarity, but sim(A,B) = {g} and sim(B,A) = {rev} for {ia:?} x {ib:?}"
                     );
@@ -301,6 +306,9 @@ pub fn check(c: &Case, stats: &mut Stats) -> CheckResult {
     match c {
         Case::Matrix { rows, cols, data, scale_exp } => {
             let (d, s) = scaled(data, *scale_exp);
+            if d.iter().take(rows * cols).any(|v| v.is_infinite()) {
+                stats.label("infinite-score");
+            }
             if *scale_exp != 0 {
                 stats.label(if *scale_exp > 0 { "magnitude:huge" } else { "magnitude:tiny" });
             }
@@ -320,9 +328,11 @@ pub fn check(c: &Case, stats: &mut Stats) -> CheckResult {
 /// finite values with many duplicates: a grid k/8 in [-2, 6], plus a few arbitrary finite values
 fn value() -> impl Strategy<Value = f32> {
     prop_oneof![
-        8 => (0u8..65).prop_map(|k| f32::from(k) / 8.0 - 2.0),
-        1 => (-1000.0f32..1000.0),
-        1 => Just(0.0f32),
+        16 => (0u8..65).prop_map(|k| f32::from(k) / 8.0 - 2.0),
+        2 => (-1000.0f32..1000.0),
+        2 => Just(0.0f32),
+        // stands for +infinity (see `scaled`): an unbounded score, e.g. 1 / distance for identical terms
+        1 => Just(f32::MAX),
     ]
 }
 
@@ -432,10 +442,10 @@ impl Property for C05 {
         "C05"
     }
     fn rule(&self) -> String {
-        "Generated: (a) raw r x c matrices, r,c in 0..=8 plus 1x40 and 40x1, finite f32 entries drawn from few values per matrix (ties among maxima), one case in six scaled by 10^e, e in -36..=33 (compared after dividing by the scale), through StandardCombiner::{FunSimAvg,FunSimMax,Bma}::calculate; integer matrices for rows()/cols()/dim()/len() against index arithmetic; (b) on a flat 40-term ontology: sequences of 1-6 pairs of term sets (sizes 0..=8, occasionally 31-40 members) and a user-supplied Similarity that looks pairs up in a generated 40x40 table (asymmetric or symmetrised), through GroupSimilarity::calculate and HpoSet::similarity; (c) the same sequence through one CachedSimilarity per combiner (second visit, transposed pair), every set also compared with itself as the same object on both sides, and term-level (a,b),(b,a),(a,b). Oracle: the three definitions evaluated in f64 on M[i][j] = T[A_i][B_j] (ascending ids), tolerance 1e-4; 0 for an empty side; argument-order independence for symmetric tables (1e-6); cached results bit-identical to uncached. evaluations = combiner evaluations. Non-trivial = non-square non-empty matrix whose row-max mean differs from its column-max mean, or a set pair of unequal non-zero sizes; distinct by hash of the case.".into()
+        "Generated: (a) raw r x c matrices, r,c in 0..=8 plus 1x40 and 40x1, f32 entries (finite, occasionally +infinity) drawn from few values per matrix (ties among maxima), one case in six scaled by 10^e, e in -36..=33 (compared after dividing by the scale), through StandardCombiner::{FunSimAvg,FunSimMax,Bma}::calculate; integer matrices for rows()/cols()/dim()/len() against index arithmetic; (b) on a flat 40-term ontology: sequences of 1-6 pairs of term sets (sizes 0..=8, occasionally 31-40 members) and a user-supplied Similarity that looks pairs up in a generated 40x40 table (asymmetric or symmetrised), through GroupSimilarity::calculate and HpoSet::similarity; (c) the same sequence through one CachedSimilarity per combiner (second visit, transposed pair), every set also compared with itself as the same object on both sides, and term-level (a,b),(b,a),(a,b). Oracle: the three definitions evaluated in f64 on M[i][j] = T[A_i][B_j] (ascending ids), tolerance 1e-4; 0 for an empty side; argument-order independence for symmetric tables (1e-6); cached results bit-identical to uncached. evaluations = combiner evaluations. Non-trivial = non-square non-empty matrix whose row-max mean differs from its column-max mean, or a set pair of unequal non-zero sizes; distinct by hash of the case.".into()
     }
     fn assumptions(&self) -> Vec<String> {
-        vec!["term similarities are finite (NaN entries are outside the domain: maxima are taken with '>')".into(), "f32 sums compared with f64 reference within 1e-4 relative".into()]
+        vec!["term similarities are finite or +infinity (NaN and -infinity are outside the domain: maxima are taken with '>' and inf - inf has no value)".into(), "f32 sums compared with f64 reference within 1e-4 relative".into()]
     }
     fn cases(&self, tier: Tier) -> u64 {
         match tier {
@@ -444,7 +454,7 @@ impl Property for C05 {
         }
     }
     fn required_labels(&self, _tier: Tier) -> Vec<&'static str> {
-        vec!["nontrivial", "matrix:rect-row!=col-means", "matrix:empty", "matrix:1x40", "int-matrix", "sets:unequal-sizes", "sets:empty", "sets:more-than-30-members", "sets:symmetric-table", "sets:asymmetric-table", "sets:cache-reused-over-several-pairs", "sets:same-object-asymmetric-table", "magnitude:huge", "magnitude:tiny", "sets:more-than-128-members", "sets:more-than-255-members"]
+        vec!["nontrivial", "matrix:rect-row!=col-means", "matrix:empty", "matrix:1x40", "int-matrix", "sets:unequal-sizes", "sets:empty", "sets:more-than-30-members", "sets:symmetric-table", "sets:asymmetric-table", "sets:cache-reused-over-several-pairs", "sets:same-object-asymmetric-table", "magnitude:huge", "magnitude:tiny", "sets:more-than-128-members", "sets:more-than-255-members", "infinite-score"]
     }
     fn run_generated(&self, _tier: Tier, seed: u64, n: u64, stats: &mut Stats) -> Option<(Value, Failure)> {
         run_typed(strategy(), seed, n, stats, check)
